@@ -20,6 +20,8 @@ func TestSim(t *testing.T) {
 				RunC07(st, tier, leg, logOn, res)
 			case "C05":
 				RunC05(st, tier, leg, logOn, res)
+			case "C02":
+				RunC02(st, tier, leg, logOn, res)
 			default:
 				panic("unknown SIM_PROP " + prop)
 			}
